@@ -87,6 +87,7 @@ LITERAL_TRUE = {
     ("glotaran/builtin/io/folder/folder_plugin.py", "LegacyProjectIo.save_result", "save_result"): "deprecated legacy plugin forwarding to the yml plugin inside the protected folder",
     ("glotaran/builtin/io/folder/folder_plugin.py", "FolderProjectIo.save_result", "save_parameters"): "nested parameter files inside the protected folder",
     ("glotaran/builtin/io/folder/folder_plugin.py", "FolderProjectIo.save_result", "save_dataset"): "nested dataset files inside the protected folder",
+    ("glotaran/builtin/io/pandas/tsv.py", "TsvProjectIo.save_parameters", "save_parameters"): "the tsv plugin writes through the csv plugin to the very file the outer dispatcher already protected (D27)",
 }
 
 
@@ -297,7 +298,26 @@ def r2(ctx) -> None:
                     and all(d.kind == "param" for d in fl.reaching("allow_overwrite", c))
                 ctx.ob("C18-R2", f"forwarded-allow-overwrite:{fi.short}->{callee}", own, fi, lib.stmt_of(c),
                        "a non-literal allow_overwrite argument must be the caller's own, unmodified allow_overwrite parameter")
-    ctx.sites("C18-R2", "literal allow_overwrite=True", n_lit, 7)
+    ctx.sites("C18-R2", "literal allow_overwrite=True", n_lit, 8)
+    # a plugin save method that writes through a dispatcher has already been admitted by the outer dispatcher:
+    # the nested call must say so, otherwise allow_overwrite=True can never succeed on an existing target
+    n_nested = 0
+    for fi in repo.functions.values():
+        if not (fi.rel.startswith("glotaran/builtin/io/") and fi.cls is not None and fi.name in SAVE_NAMES):
+            continue
+        for c in lib.calls(fi):
+            if not (isinstance(c.func, ast.Name) and c.func.id in SAVE_NAMES):
+                continue
+            q = lib.resolved(repo, fi, c.func) or ""
+            if "plugin_system" not in q and not q.startswith("glotaran.io"):
+                continue
+            n_nested += 1
+            ao = kwarg(c, "allow_overwrite")
+            ctx.ob("C18-R2", f"nested-dispatch-admitted:{fi.short}->{c.func.id}", isinstance(ao, ast.Constant) and ao.value is True, fi, lib.stmt_of(c),
+                   "a save dispatcher called from inside a plugin's save method re-runs the overwrite protection with its default "
+                   "(refuse): without allow_overwrite=True the plugin fails on every existing target even when the user allowed overwriting",
+                   construct=lib.short(c, 120))
+    ctx.sites("C18-R2", "save dispatchers called from plugin save methods", n_nested, 6)
     # nested saves stay inside the protected path
     for (rel, fname, callee), _why in sorted(LITERAL_TRUE.items()):
         if fname in ("Result.save",):
@@ -497,33 +517,46 @@ def r4(ctx) -> None:
     ctx.ob("C18-R4", "matcher/use", len(ms) == 1, fb, ms[0] if ms else fb.node,
            "the fallback decides on the run specifier with an anchored match of result_pattern",
            construct=lib.short(ms[0]) if ms else "def _latest_result_path_fallback")
-    # stripper
+    # stripper: the name handed to the latest-lookup is the given name with exactly the run suffix removed
     n = 0
-    for name in ("Project.get_latest_result_path", "Project.load_latest_result"):
+    for name, delegate in (("Project.get_latest_result_path", "get_result_path"), ("Project.load_latest_result", "load_result")):
         fi = ctx.fn(PRJ, name)
-        subs = [c for c in lib.calls(fi) if norm(c.func) == "re.sub"]
-        for c in subs:
-            n += 1
-            p = c.args[0]
-            src = p
-            if not (isinstance(p, (ast.Constant, ast.JoinedStr))):
-                ch = lib.attr_chain(p)
-                if ch and ch[-1] == "result_pattern":
-                    src = pat.args[0] if isinstance(pat, ast.Call) else None
-                else:
-                    src = None
-            toks = None
-            if src is not None:
-                try:
-                    toks = langs.fstring_tokens(src, as_regex=True)
-                except langs.PatternError:
-                    toks = None
-            ok = toks == SUFFIX + [("end",)] and lib.const_str(c.args[1]) == ""
-            ctx.ob("C18-R4", f"stripper/{name}", ok, fi, lib.stmt_of(c),
-                   "only the run suffix `_run_NNNN` at the end of the name may be removed; a pattern that also "
-                   "matches the base name turns every name into the empty string",
-                   [f"tokens: {langs.show(toks) if toks else '?'}"])
-    ctx.sites("C18-R4", "stripper re.sub", n, 2)
+        flp = lib.flow(fi, ctx.repo)
+        name_p = fi.params()[1]
+        dels = [c for c in lib.method_calls(fi, delegate) if c.args]
+        n += len(dels)
+        for dc in dels:
+            arg = dc.args[0]
+            values = []
+            if isinstance(arg, ast.Name):
+                for d in flp.reaching(arg.id, lib.stmt_of(dc)):
+                    values.append(None if d.kind == "param" else d.value)
+            else:
+                values.append(arg)
+            for v in values:
+                if v is None:
+                    continue  # the name as given (no stripping on this path)
+                v = flp.inline(v, lib.stmt_of(dc)) if not isinstance(v, ast.Name) else v
+                toks = None
+                shape = isinstance(v, ast.Call) and norm(v.func) == "re.sub" and len(v.args) == 3 and lib.const_str(v.args[1]) == "" \
+                    and norm(v.args[2]) == name_p
+                if shape:
+                    p = v.args[0]
+                    src = p
+                    if not (isinstance(p, (ast.Constant, ast.JoinedStr))):
+                        ch = lib.attr_chain(p)
+                        src = (pat.args[0] if isinstance(pat, ast.Call) else None) if ch and ch[-1] == "result_pattern" else None
+                    if src is not None:
+                        try:
+                            toks = langs.fstring_tokens(src, as_regex=True)
+                        except langs.PatternError:
+                            toks = None
+                ok = bool(shape) and toks == SUFFIX + [("end",)]
+                ctx.ob("C18-R4", f"stripper/{name}", ok, fi, lib.stmt_of(dc),
+                       "the name looked up is the given name with only a trailing `_run_NNNN` removed (re.sub(r'_run_\\d{4}$', '', name)); "
+                       "anything else (e.g. splitting at '_run_') truncates result names that contain '_run_' or turns a name into ''",
+                       [f"value: {norm(v)}", f"tokens: {langs.show(toks) if toks else '?'}"], construct=lib.short(v, 100))
+    ctx.sites("C18-R4", "latest-lookups delegating with a stripped name", n, 2)
 
 
 def check(ctx) -> None:
